@@ -1,0 +1,47 @@
+//go:build verif
+
+package logic
+
+import (
+	"bytes"
+	"net/http"
+
+	"github.com/q191201771/lal/pkg/base"
+)
+
+// VerifUnmarshalRequestJsonBody runs unmarshalRequestJsonBody the way the /api/ctrl/* handlers do, on an arbitrary body.
+func VerifUnmarshalRequestJsonBody(kind string, body []byte) (interface{}, error) {
+	req, err := http.NewRequest("POST", "http://127.0.0.1/api/ctrl/"+kind, bytes.NewReader(body))
+	if err != nil {
+		return nil, err
+	}
+	switch kind {
+	case "start_relay_pull":
+		var info base.ApiCtrlStartRelayPullReq
+		j, err := unmarshalRequestJsonBody(req, &info, "url")
+		if err == nil {
+			_ = j.Exist("pull_timeout_ms")
+			_ = j.Exist("rtsp_mode")
+		}
+		return info, err
+	case "kick_session":
+		var info base.ApiCtrlKickSessionReq
+		_, err := unmarshalRequestJsonBody(req, &info, "stream_name", "session_id")
+		return info, err
+	case "start_rtp_pub":
+		var info base.ApiCtrlStartRtpPubReq
+		j, err := unmarshalRequestJsonBody(req, &info, "stream_name")
+		if err == nil {
+			_ = j.Exist("timeout_ms")
+		}
+		return info, err
+	case "add_ip_blacklist":
+		var info base.ApiCtrlAddIpBlacklistReq
+		_, err := unmarshalRequestJsonBody(req, &info, "ip", "duration_sec")
+		return info, err
+	default:
+		var info map[string]interface{}
+		_, err := unmarshalRequestJsonBody(req, &info)
+		return info, err
+	}
+}
